@@ -683,7 +683,7 @@ namespace c08
           if(pat != 0 || cfg.kind <= K_ILU) c.nontrivial(verif::Hash().pod(bs).pod(n).pod(pat).pod(dvar).pod(ci).pod(fi).get());
           c.outcome(std::string(KNAME[cfg.kind]) + (fi ? "+unit" : "+none"));
           // the life-cycle behaviour hardly depends on the pattern: quick explores it for all patterns of n <= 3 and every 8th of larger n
-          const bool lifecycle = ((fi == 0) || (fi == 1 && dvar == 0)) && (c.thorough || n <= 3 || pat % 8 == 5 || pat == npat - 1);
+          const bool lifecycle = ((fi == 0) || (fi == 1 && dvar == 0)) && (n <= 3 || pat == npat - 1 || (c.thorough ? (n <= 4 || pat % 4 == 1) : (pat % 8 == 5)));
           if(fi == 0) run_case<bs, typename S::FNone>(c, orc, where, lifecycle, lc_depth);
           else run_case<bs, typename S::FUnit>(c, orc, where, lifecycle, lc_depth);
         }
